@@ -171,6 +171,9 @@ type Method struct {
 	Security  []*Requirement    `json:"security,omitempty"`
 	NoSec     bool              `json:"no_security,omitempty"`
 	FixedView string            `json:"fixed_view,omitempty"`
+	// Collection: the result is CollectionOf(<the result type named by Result>): on the model side Result is then
+	// an array of that type (see ResultAttr / genlib.loadDesign), rendered element by element with the chosen view
+	Collection bool `json:"collection,omitempty"`
 }
 
 // Service groups methods.
